@@ -361,6 +361,28 @@ pub mod sync {
         }
     }
 
+    impl<T> Mutex<T> {
+        pub fn into_inner(self) -> LockResult<T> {
+            self.inner.into_inner()
+        }
+    }
+
+    impl<T: ?Sized> Mutex<T> {
+        pub fn get_mut(&mut self) -> LockResult<&mut T> {
+            self.inner.get_mut()
+        }
+
+        pub fn clear_poison(&self) {
+            self.inner.clear_poison()
+        }
+    }
+
+    impl<T> From<T> for Mutex<T> {
+        fn from(t: T) -> Self {
+            Self::new(t)
+        }
+    }
+
     impl<T: Default> Default for Mutex<T> {
         fn default() -> Self {
             Self::new(T::default())
@@ -440,6 +462,12 @@ pub mod sync {
         }
     }
 
+    impl<T: ?Sized + fmt::Debug> fmt::Debug for MutexGuard<'_, T> {
+        fn fmt(&self, f: &mut fmt::Formatter<'_>) -> fmt::Result {
+            (**self).fmt(f)
+        }
+    }
+
     impl<T: ?Sized> Drop for MutexGuard<'_, T> {
         fn drop(&mut self) {
             if let Some(g) = self.inner.take() {
@@ -463,6 +491,70 @@ pub mod sync {
             Self {
                 id: new_lock_id(),
                 inner: std::sync::RwLock::new(t),
+            }
+        }
+    }
+
+    impl<T> RwLock<T> {
+        pub fn into_inner(self) -> LockResult<T> {
+            self.inner.into_inner()
+        }
+    }
+
+    impl<T: Default> Default for RwLock<T> {
+        fn default() -> Self {
+            Self::new(T::default())
+        }
+    }
+
+    impl<T: ?Sized> RwLock<T> {
+        pub fn get_mut(&mut self) -> LockResult<&mut T> {
+            self.inner.get_mut()
+        }
+
+        pub fn try_read(&self) -> TryLockResult<RwLockReadGuard<'_, T>> {
+            let ctx = ctx();
+            match self.inner.try_read() {
+                Ok(g) => {
+                    if let Some(c) = &ctx {
+                        acquired(c, self.id, class_of::<T>(), Mode::Read);
+                    }
+                    Ok(RwLockReadGuard { inner: Some(g), lock: self, ctx })
+                }
+                Err(TryLockError::WouldBlock) => Err(TryLockError::WouldBlock),
+                Err(TryLockError::Poisoned(p)) => {
+                    if let Some(c) = &ctx {
+                        acquired(c, self.id, class_of::<T>(), Mode::Read);
+                    }
+                    Err(TryLockError::Poisoned(PoisonError::new(RwLockReadGuard {
+                        inner: Some(p.into_inner()),
+                        lock: self,
+                        ctx,
+                    })))
+                }
+            }
+        }
+
+        pub fn try_write(&self) -> TryLockResult<RwLockWriteGuard<'_, T>> {
+            let ctx = ctx();
+            match self.inner.try_write() {
+                Ok(g) => {
+                    if let Some(c) = &ctx {
+                        acquired(c, self.id, class_of::<T>(), Mode::Write);
+                    }
+                    Ok(RwLockWriteGuard { inner: Some(g), lock: self, ctx })
+                }
+                Err(TryLockError::WouldBlock) => Err(TryLockError::WouldBlock),
+                Err(TryLockError::Poisoned(p)) => {
+                    if let Some(c) = &ctx {
+                        acquired(c, self.id, class_of::<T>(), Mode::Write);
+                    }
+                    Err(TryLockError::Poisoned(PoisonError::new(RwLockWriteGuard {
+                        inner: Some(p.into_inner()),
+                        lock: self,
+                        ctx,
+                    })))
+                }
             }
         }
     }
@@ -647,6 +739,59 @@ pub mod sync {
             }
         }
 
+        pub fn wait_while<'a, T, F>(
+            &self,
+            mut guard: MutexGuard<'a, T>,
+            condition: F,
+        ) -> LockResult<MutexGuard<'a, T>>
+        where
+            F: FnMut(&mut T) -> bool,
+        {
+            self.wait_begin(&guard, None);
+            let (lock, ctx) = (guard.lock, guard.ctx.take());
+            let inner = guard.inner.take().unwrap();
+            drop(guard);
+            let res = self.inner.wait_while(inner, condition);
+            self.wait_end(&ctx, lock, false);
+            match res {
+                Ok(g) => Ok(MutexGuard { inner: Some(g), lock, ctx }),
+                Err(p) => Err(PoisonError::new(MutexGuard {
+                    inner: Some(p.into_inner()),
+                    lock,
+                    ctx,
+                })),
+            }
+        }
+
+        pub fn wait_timeout<'a, T>(
+            &self,
+            mut guard: MutexGuard<'a, T>,
+            dur: Duration,
+        ) -> LockResult<(MutexGuard<'a, T>, WaitTimeoutResult)> {
+            self.wait_begin(&guard, Some(dur));
+            let (lock, ctx) = (guard.lock, guard.ctx.take());
+            let inner = guard.inner.take().unwrap();
+            drop(guard);
+            let res = self.inner.wait_timeout(inner, dur);
+            match res {
+                Ok((g, r)) => {
+                    self.wait_end(&ctx, lock, r.timed_out());
+                    Ok((
+                        MutexGuard { inner: Some(g), lock, ctx },
+                        WaitTimeoutResult(r.timed_out()),
+                    ))
+                }
+                Err(p) => {
+                    let (g, r) = p.into_inner();
+                    self.wait_end(&ctx, lock, r.timed_out());
+                    Err(PoisonError::new((
+                        MutexGuard { inner: Some(g), lock, ctx },
+                        WaitTimeoutResult(r.timed_out()),
+                    )))
+                }
+            }
+        }
+
         pub fn wait_timeout_while<'a, T, F>(
             &self,
             mut guard: MutexGuard<'a, T>,
@@ -715,7 +860,48 @@ pub mod thread {
     use super::{ctx, Ctx, DelayKind, DelayPoint, Event, Mode, WaitFor, CTX};
     use std::sync::atomic::Ordering;
 
-    pub use std::thread::{panicking, sleep, yield_now, Result};
+    pub use std::thread::{
+        available_parallelism, current, panicking, park, park_timeout, sleep, yield_now, Result,
+        Thread, ThreadId,
+    };
+
+    /// `std::thread::Builder` whose `spawn` goes through the shim.
+    #[derive(Debug, Default)]
+    pub struct Builder {
+        name: Option<String>,
+        stack_size: Option<usize>,
+    }
+
+    impl Builder {
+        pub fn new() -> Self {
+            Self::default()
+        }
+
+        pub fn name(mut self, name: String) -> Self {
+            self.name = Some(name);
+            self
+        }
+
+        pub fn stack_size(mut self, size: usize) -> Self {
+            self.stack_size = Some(size);
+            self
+        }
+
+        pub fn spawn<F, T>(self, f: F) -> std::io::Result<JoinHandle<T>>
+        where
+            F: FnOnce() -> T + Send + 'static,
+            T: Send + 'static,
+        {
+            let mut b = std::thread::Builder::new();
+            if let Some(n) = self.name {
+                b = b.name(n);
+            }
+            if let Some(s) = self.stack_size {
+                b = b.stack_size(s);
+            }
+            spawn_with(f, move |g| b.spawn(g))
+        }
+    }
 
     pub struct JoinHandle<T> {
         inner: std::thread::JoinHandle<T>,
@@ -780,6 +966,20 @@ pub mod thread {
         F: FnOnce() -> T + Send + 'static,
         T: Send + 'static,
     {
+        match spawn_with(f, |g| Ok(std::thread::spawn(g))) {
+            Ok(h) => h,
+            Err(e) => panic!("failed to spawn thread: {e}"),
+        }
+    }
+
+    fn spawn_with<F, T>(
+        f: F,
+        start: impl FnOnce(Box<dyn FnOnce() -> T + Send + 'static>) -> std::io::Result<std::thread::JoinHandle<T>>,
+    ) -> std::io::Result<JoinHandle<T>>
+    where
+        F: FnOnce() -> T + Send + 'static,
+        T: Send + 'static,
+    {
         let parent = ctx();
         let child = parent.as_ref().map(|p| Ctx {
             session: p.session.clone(),
@@ -792,7 +992,7 @@ pub mod thread {
             });
         }
         let target = child.as_ref().map(|c| c.thread);
-        let inner = std::thread::spawn(move || {
+        let inner = start(Box::new(move || {
             let _guard = child.map(|c| {
                 CTX.with(|slot| *slot.borrow_mut() = Some(c.clone()));
                 c.session.with_trace(|t| t.events.push(Event::ThreadStart { t: c.thread }));
@@ -806,7 +1006,7 @@ pub mod thread {
                 ExitGuard(c)
             });
             f()
-        });
-        JoinHandle { inner, target }
+        }))?;
+        Ok(JoinHandle { inner, target })
     }
 }
